@@ -407,6 +407,56 @@ theorem cookwareA_pfAt (env : Env) (input : Str) (lc : Loc (PCookware α))
   apply PFAt.bind_get
   exact cwBuild_pfAt env input lc _ _ hloc htab hq
 
+theorem insertionSort_singleton (x : Span) : insertionSort [x] = [x] := rfl
+
+/-- `time_override_check` right after the key was inserted: `locs[new]` has its entry -/
+theorem timeOverrideCheck_pfAt (new : StdKey) (s : Col α)
+    (h : ∃ p, s.metaLocs.find? (fun p => p.1 == new) = some p) : PFAt (timeOverrideCheck new) s := by
+  obtain ⟨p, hp⟩ := h
+  unfold timeOverrideCheck
+  pf_at
+  all_goals (
+    rename_i hn
+    exfalso
+    simp only [List.filterMap_cons, hp, Option.map_some, List.filterMap_nil, insertionSort_singleton] at hn
+    simp at hn)
+
+/-- a one-character key cannot both start with `[` and end with `]` -/
+theorem config_key_absurd (m : Bool) (k : Str)
+    (h1 : ¬(m && k.head? == some '[' && k.getLast? == some ']' && decide (k.length ≥ 2)) = true)
+    (h2 : (m && k.head? == some '[' && k.getLast? == some ']') = true) : False := by
+  simp only [Bool.and_eq_true, beq_iff_eq, decide_eq_true_eq] at h1 h2
+  obtain ⟨⟨hm, hh⟩, hl⟩ := h2
+  have hlen : ¬ k.length ≥ 2 := fun hge => h1 ⟨⟨⟨hm, hh⟩, hl⟩, hge⟩
+  cases k with
+  | nil => cases hh
+  | cons c t =>
+    cases t with
+    | nil =>
+      simp only [List.head?_cons, Option.some.injEq] at hh
+      simp only [List.getLast?_singleton, Option.some.injEq] at hl
+      rw [hh] at hl; cases hl
+    | cons c' t' => simp at hlen
+
+theorem find?_filter_append_last (l : List (StdKey × Span)) (sk : StdKey) (sp : Span) :
+    (List.filter (fun p => p.1 != sk) l ++ [(sk, sp)]).find? (fun p => p.1 == sk) = some (sk, sp) := by
+  rw [List.find?_append]
+  have : (List.filter (fun p => p.1 != sk) l).find? (fun p => p.1 == sk) = none := by
+    rw [List.find?_eq_none]
+    intro x hx
+    simp only [List.mem_filter] at hx
+    simpa using hx.2
+  rw [this]
+  simp
+
+/-- `>>` metadata: neither the key slice nor `time_override_check`'s index can panic -/
+theorem metadataA_pfAt (env : Env) (key value : Text) (s : Col α) : PFAt (metadataA env key value) s := by
+  unfold metadataA
+  pf_at
+  all_goals first
+    | exact timeOverrideCheck_pfAt _ _ ⟨_, find?_filter_append_last _ _ _⟩
+    | (exfalso; apply config_key_absurd <;> assumption)
+
 end pieces
 
 end Cook
